@@ -233,6 +233,10 @@ func (e *Exec) sample() {
 	}
 }
 
+// HandlerRemoved reports whether RemoveHandler was called on a publisher whose sync may have been running (then a
+// second handler, with locks of its own, can run a second sync of that publisher next to the first).
+func (e *Exec) HandlerRemoved() bool { return e.handlerRemoved }
+
 // Dirty reports whether publisher p may have announcements that were not handled yet.
 func (e *Exec) Dirty(p int) bool { return e.dirty[p] }
 
